@@ -251,8 +251,14 @@ func Build(c *Cfg) *World {
 	w.PT = vm.MakePageTableBuilder().WithLog2PageSize(c.Log2Page).Build("PageTable")
 
 	for _, p := range c.Pages {
-		pg := vm.Page{PID: vm.PID(p.PID), VAddr: p.VPage * ps, PAddr: p.PPage * ps, PageSize: ps, Valid: true, DeviceID: p.Device, Unified: true}
+		pg := vm.Page{PID: vm.PID(p.PID), VAddr: p.VPage * ps, PAddr: p.PPage * ps, PageSize: ps, Valid: !p.Invalid, DeviceID: p.Device, Unified: true}
 		w.PT.Insert(pg)
+
+		if p.Moved {
+			pg.PAddr = p.MovedTo * ps
+			w.PT.Update(pg)
+		}
+
 		w.table[[2]uint64{uint64(p.PID), p.VPage}] = pg
 	}
 
